@@ -66,6 +66,8 @@ pub(crate) enum StorageImpl {
 
 impl StorageImpl {
     pub(crate) fn write(&self, offset: usize, data: &[u8]) {
+        #[cfg(walrus_verif)]
+        crate::wal::verif::io_event("write");
         match self {
             StorageImpl::Mmap(mmap) => {
                 debug_assert!(offset <= mmap.len());
@@ -91,6 +93,8 @@ impl StorageImpl {
     }
 
     pub(crate) fn flush(&self) -> std::io::Result<()> {
+        #[cfg(walrus_verif)]
+        crate::wal::verif::io_event("flush");
         match self {
             StorageImpl::Mmap(mmap) => mmap.flush(),
             StorageImpl::Fd(fd) => fd.flush(),
